@@ -417,6 +417,78 @@ pub fn run(ctx: &Ctx) -> Report {
         }
     });
     rep.merge(r);
+    // ---- reassembly as a client does it: a client takes packets in sequence-id order and stops at the
+    //      first one that is out of sync, so a reply of many packets only yields its messages if the
+    //      ids run on (mod 256) through the whole reply. (Where a reply's ids *start* is C05's clause.)
+    let n = if ctx.miri { 1 } else { ctx.n(60, 1500) };
+    let r = par_cases(ctx, "C04", "client-reassembly", n, |rng, i, rep| {
+        let rows = match i % 6 {
+            0 => rng.range(1, 10) as usize,
+            1 => 248 + rng.below(12) as usize,
+            2 => 504 + rng.below(12) as usize,
+            3 => 760 + rng.below(12) as usize,
+            4 => rng.range(10, 250) as usize,
+            _ => rng.range(260, 1200) as usize,
+        };
+        let bin = rng.bool();
+        let cols = vec![simple_col("a", ColumnType::MYSQL_TYPE_LONG), simple_col("b", ColumnType::MYSQL_TYPE_VAR_STRING)];
+        let mut ops = vec![QOp::Start(0)];
+        for r in 0..rows {
+            ops.push(QOp::Row(vec![Cell::val(V::I32(r as i32)), Cell::val(V::Str(format!("r{}", r)))], RowForm::Owned));
+        }
+        ops.push(QOp::Finish);
+        let first_id = *rng.pick(&[0u8, 0, 1, 200, 254, 255]);
+        let mut cmds = vec![Cmd::prepare(b"p")];
+        let mut scripts = vec![Script::PrepOk { id: 1, params: vec![], cols: vec![] }];
+        cmds.push(if bin { Cmd::execute(1, &[], false).seq(first_id) } else { Cmd::query(b"q").seq(first_id) });
+        scripts.push(Script::Q(QProg { colsets: vec![cols], ops, on_err: OnErr::Drop }));
+        cmds.push(Cmd::ping());
+        let mut case = Case::new(cmds, scripts);
+        case.write_limit = *rng.pick(&[usize::MAX, usize::MAX, 65_536, 1000, 7]);
+        let obs = run_case(&case);
+        rep.evaluations += 1;
+        if harness_panic(&obs, rep) {
+            return;
+        }
+        rep.counters.class(format!("client reassembly: reply of {} packets", len_class(rows + 4)));
+        let d = || J::obj().set("rows", rows).set("mode", if bin { "binary" } else { "text" }).set("request_id", first_id as u64).set("write_limit", if case.write_limit == usize::MAX { -1 } else { case.write_limit as i64 }).set("outcome", obs.outcome.describe());
+        if i == 0 {
+            rep.sample(d());
+        }
+        let out = obs.output();
+        let (pkts, msgs) = match wire::messages(&out) {
+            Err(e) => {
+                rep.violations.push(viol("C04", "C04 bad-framing".into(), e, d()));
+                return;
+            }
+            Ok(x) => x,
+        };
+        // the reply to the third exchange (greeting, auth and prepare replies come first): 2 + 2 column
+        // definitions... counted by the grammar, not by position
+        let dec = wire::decode_all(&obs.kinds, &msgs);
+        let Some(&(m0, m1)) = dec.spans.get(3) else {
+            rep.violations.push(viol("C04", "C04 reply-not-reassembled".into(), format!("the reply of {} rows does not reassemble into one response: {:?}", rows, dec.stop), d()));
+            return;
+        };
+        let p0 = msgs[m0].first;
+        let p1 = msgs[m1 - 1].first + msgs[m1 - 1].npkts;
+        let mut want = pkts[p0].seq;
+        for (k, p) in pkts[p0..p1].iter().enumerate() {
+            if p.seq != want {
+                rep.violations.push(viol("C04", "C04 reply-out-of-sync".into(), format!("packet {} of {} of the reply carries sequence id {} where a client reassembling it expects {}: it stops there and the {} rows do not arrive", k, p1 - p0, p.seq, want, rows), d()));
+                return;
+            }
+            want = want.wrapping_add(1);
+        }
+        rep.counters.add("reply_packets_taken_in_order", (p1 - p0) as u64);
+        if p1 - p0 >= 256 {
+            rep.counters.inc("replies_longer_than_255_packets");
+        }
+    });
+    rep.merge(r);
+    if ctx.strict() {
+        rep.require("replies_longer_than_255_packets", 5);
+    }
     rep.merge(super::mega::run(ctx, "C04", 600, 20000));
     if ctx.strict() {
         rep.require("big_messages_compared", 5);
